@@ -561,7 +561,7 @@ class Multiplexer(wiring.Component):
         # those together. If the toolchain doesn't already synthesize multiplexer trees this way,
         # this trick can save a significant amount of logic, since e.g. one 4-LUT can pack one
         # 2-MUX, but two 2-AND or 2-OR gates.
-        r_data_fanin = 0
+        r_data_fanin = []
 
         for chunk_offset, r_chunk in r_shadow.chunks():
             # Use the same trick to select which CSR register is read into a shadow register chunk.
@@ -590,9 +590,15 @@ class Multiplexer(wiring.Component):
             with m.If(r_chunk.w_en):
                 m.d.sync += r_chunk.data.eq(r_chunk_data_fanin)
 
-            r_data_fanin |= Mux(r_chunk.r_en, r_chunk.data, 0)
+            r_data_fanin.append(Mux(r_chunk.r_en, r_chunk.data, 0))
 
-        m.d.comb += self.bus.r_data.eq(r_data_fanin)
+        # OR the chunks together pairwise, so that the depth of the expression grows with the logarithm of
+        # the number of chunks; a linear chain exceeds the recursion limit of the HDL front-end once a
+        # multiplexer has about a thousand chunks (large register files, or large alignments).
+        while len(r_data_fanin) > 1:
+            r_data_fanin = [a | b for a, b in zip(r_data_fanin[0::2], r_data_fanin[1::2])] + \
+                           r_data_fanin[len(r_data_fanin) & ~1:]
+        m.d.comb += self.bus.r_data.eq(r_data_fanin[0] if r_data_fanin else 0)
 
         for chunk_offset, w_chunk in w_shadow.chunks():
             with m.Switch(self.bus.addr):
